@@ -431,10 +431,11 @@ pub struct SrcIter {
     inside: Arc<AtomicBool>,
     spin: u32,
     log: bool,
+    sleep_us: u32,
 }
 
 impl SrcIter {
-    pub fn new(items: Vec<E>, known: bool, spin: u32, log: bool) -> Self {
+    pub fn new(items: Vec<E>, known: bool, spin: u32, log: bool, sleep_us: u32) -> Self {
         SrcIter {
             items: items.into_iter(),
             known,
@@ -442,6 +443,7 @@ impl SrcIter {
             inside: Arc::new(AtomicBool::new(false)),
             spin,
             log,
+            sleep_us,
         }
     }
 }
@@ -454,6 +456,10 @@ impl Iterator for SrcIter {
         }
         for _ in 0..self.spin {
             std::hint::spin_loop();
+        }
+        if self.sleep_us > 0 {
+            // a slow source: whoever is in here holds the iterator while others reserve and queue
+            std::thread::sleep(std::time::Duration::from_micros(self.sleep_us as u64));
         }
         let x = self.items.next();
         let p: i64 = if x.is_some() { self.pos as i64 } else { -1 };
